@@ -16,6 +16,37 @@ pub fn light_schedule(plan: &mut Plan, rng: &mut Rng) {
     });
 }
 
+/// A move to continue a game with: random, but checks are favoured (positions in check
+/// are where stale cached moves tend to be illegal).
+fn continuation_move(pos: &super::super::refmodel::Pos, rng: &mut Rng) -> Option<super::super::refmodel::Mv> {
+    let ms = pos.legal_moves();
+    if ms.is_empty() {
+        return None;
+    }
+    let w: Vec<u64> = ms
+        .iter()
+        .map(|m| {
+            let p2 = pos.make(*m);
+            if p2.in_check(p2.white) {
+                8
+            } else if m.capture {
+                3
+            } else {
+                1
+            }
+        })
+        .collect();
+    let total: u64 = w.iter().sum();
+    let mut x = rng.below(total);
+    for (i, wi) in w.iter().enumerate() {
+        if x < *wi {
+            return Some(ms[i]);
+        }
+        x -= wi;
+    }
+    ms.last().copied()
+}
+
 pub fn session_script(rng: &mut Rng, mut pick_limits: impl FnMut(&mut Rng, bool) -> Limits, max_gos: u64) -> Vec<Action> {
     let mut s = vec![];
     if rng.chance(1, 4) {
@@ -23,6 +54,9 @@ pub fn session_script(rng: &mut Rng, mut pick_limits: impl FnMut(&mut Rng, bool)
     }
     let mut spec = gen::random_posspec(rng);
     s.push(Action::send(spec.cmd.clone()));
+    // Half of the sessions continue ONE game the way a GUI does (the same game, a ply or
+    // two longer each time), so that later roots lie inside earlier search trees.
+    let continuation = rng.chance(1, 2);
     let gos = rng.range(1, max_gos);
     for k in 0..gos {
         let l = pick_limits(rng, spec.dense);
@@ -33,7 +67,29 @@ pub fn session_script(rng: &mut Rng, mut pick_limits: impl FnMut(&mut Rng, bool)
             // the GUI thinks for a while (discrete-event time: the clock jumps)
             s.push(Action::DelayNs(rng.range(1_000_000, 3_000_000_000)));
         }
-        if k + 1 < gos && rng.chance(1, 2) {
+        if k + 1 < gos && continuation {
+            let mut cur = spec.pos().clone();
+            let mut added = vec![];
+            for _ in 0..rng.range(1, 2) {
+                let Some(m) = continuation_move(&cur, rng) else { break };
+                let nxt = cur.make(m);
+                if nxt.legal_moves().is_empty() {
+                    break;
+                }
+                cur = nxt;
+                added.push(m);
+                spec.game.push(cur.clone());
+            }
+            if !added.is_empty() {
+                let extra = gen::moves_str(&added);
+                spec.cmd = if spec.cmd.contains(" moves ") {
+                    format!("{} {extra}", spec.cmd)
+                } else {
+                    format!("{} moves {extra}", spec.cmd)
+                };
+                s.push(Action::send(spec.cmd.clone()));
+            }
+        } else if k + 1 < gos && rng.chance(1, 2) {
             spec = gen::random_posspec(rng);
             s.push(Action::send(spec.cmd.clone()));
         }
@@ -73,7 +129,7 @@ pub fn check(plans: &[Plan], recs: &[RunRec]) -> Outcome {
     let capped = matches!(rec.end, EndReason::StepCap | EndReason::TickCap);
     for v in &views {
         let g = v.go;
-        if g.tid.is_none() || g.refused {
+        if (g.tid.is_none() && !g.inline) || g.refused {
             continue;
         }
         let Some(pos) = &v.pos else { continue };
